@@ -181,7 +181,7 @@ def scan_forbidden(pid):
     hits = []
     for root in (os.path.join(COQ, "Common"), os.path.join(COQ, pid)):
         for dp, dn, fn in os.walk(root):
-            if "_cases" in dp:
+            if "_cases" in dp or "/gen" in dp and False:
                 continue
             for f in fn:
                 if f.endswith(".v"):
@@ -275,7 +275,8 @@ def _coq_shard(args):
 
 def run_model_shards(pid, suite, pairs):
     """pairs: list of (global_index, coq_pair_text).  Returns (set of mismatching global indices, errors)."""
-    d = os.path.join(COQ, pid, "_cases")
+    cdir = "_cases_%d" % os.getpid()          # per run: concurrent checks of one property do not collide
+    d = os.path.join(COQ, pid, cdir)
     shutil.rmtree(d, ignore_errors=True)
     os.makedirs(d)
     jobs = []
@@ -288,7 +289,7 @@ def run_model_shards(pid, suite, pairs):
             f.write(suite.coq_header + "\n")
             f.write("Definition cases := [\n" + ";\n".join(t for _, t in chunk) + "\n].\n")
             f.write("Eval vm_compute in (mismatches run out_eqb cases).\n")
-        jobs.append((pid, "_cases/" + name))
+        jobs.append((pid, cdir + "/" + name))
         shards.append(chunk)
     bad, errs = set(), []
     with mp.get_context("fork").Pool(min(NPROC, max(1, len(jobs)))) as pool:
@@ -306,13 +307,14 @@ def run_model_shards(pid, suite, pairs):
 
 def model_output_text(pid, suite, coq_pair):
     """For a replay file: print what the model computes on one input (raw Coq text)."""
-    d = os.path.join(COQ, pid, "_cases")
+    cdir = "_cases_%d" % os.getpid()
+    d = os.path.join(COQ, pid, cdir)
     os.makedirs(d, exist_ok=True)
     p = os.path.join(d, "one.v")
     with open(p, "w") as f:
         f.write("From Common Require Import Prelude.\n" + suite.coq_header + "\n")
         f.write("Definition c := %s.\nEval vm_compute in (run (fst c)).\n" % coq_pair)
-    rc, out = sh("timeout 300 coqc %s _cases/one.v 2>&1" % coq_flags(pid), cwd=os.path.join(COQ, pid))
+    rc, out = sh("timeout 300 coqc %s %s/one.v 2>&1" % (coq_flags(pid), cdir), cwd=os.path.join(COQ, pid))
     shutil.rmtree(d, ignore_errors=True)
     return out[-4000:]
 
